@@ -23,6 +23,9 @@ pub fn full() -> Vec<Value> {
     let mut v = al::numbers();
     v.extend(al::s_num());
     v.extend(containers());
+    v.extend(al::wrapped_scalars());
+    // "1" wrapped in every white-space candidate (and look-alike)
+    v.extend(al::ws_strings().into_iter().step_by(2));
     al::dedup(v)
 }
 
@@ -113,6 +116,18 @@ pub fn run(ctx: &mut Ctx) {
         let xs = x.as_str().unwrap_or("").to_string();
         ctx.check("+:decimal-string:prefix", &json!({"+": [format!("{}px", xs)]}), &null);
         ctx.check("*:decimal-string:prefix", &json!({"*": [format!(" {} ", xs), 1]}), &null);
+    }
+    // radix literal families around the accumulator widths (all-zero, all-max, top bit, bottom bit, alternating)
+    for x in al::radix_families() {
+        if !ctx.mine() {
+            continue;
+        }
+        for k in OPS {
+            ctx.edge();
+            ctx.check(&format!("{}:radix-family:1", k), &op(k, vec![x.clone()]), &null);
+            ctx.check(&format!("{}:radix-family:2", k), &op(k, vec![json!(1), json!({"var": "s"})]), &json!({"s": x}));
+        }
+        ctx.check("-:radix-family:neg", &json!({"-": [format!("-{}", x.as_str().unwrap())]}), &null);
     }
     // factor boundaries: products / sums of 2..4 integers that cross 2^53, 2^63, 2^64
     {
@@ -267,4 +282,5 @@ pub fn run(ctx: &mut Ctx) {
         }
     }
     crate::spaces::render_probes(ctx, &OPS);
+    crate::spaces::width_probes(ctx);
 }
